@@ -131,7 +131,11 @@ class Engine(GenericConcreteEngine[Callable[..., Any]]):
                     return tree, commutator.done, commutator.messages
                 else:
                     upstream, done, messages = self.backtrack_unary(commutator.first, target, preferred)
-                    if upstream is not target:
+                    if upstream is not target or (done and commutator.second != tree.operation):
+                        # Even if nothing had to be inserted upstream (the new
+                        # operation turned out to be a no-op there), its
+                        # commutation may have replaced this operation (e.g. a
+                        # Calculation made redundant by the new Projection).
                         result = commutator.second._finish_apply(upstream)
                     else:
                         result = tree
